@@ -1195,7 +1195,8 @@ class CoseContext(AbstractContext):
                       secsrc_eid: str) -> CoseKey:
         ''' Get a local COSE key associated with a specific COSE message and security source EID '''
         kid_item = hdr_src.get_attr(headers.KID)
-        if kid_item:
+        # an empty identifier is an identifier too
+        if kid_item is not None:
             LOGGER.debug('Trying key based on KID %s with store containing %s', kid_item, self.sym_key_store.keys())
             if kid_item in self.sym_key_store:
                 return self.sym_key_store.get(kid_item)
